@@ -5,7 +5,7 @@ import tempfile
 from hypothesis import strategies as st
 
 from vlib import cidlib, gen_tables, model_validio
-from vlib.runner import norm_message
+from vlib.runner import norm_message, reused_dir
 
 import cutplace
 from cutplace import errors
@@ -144,7 +144,7 @@ def compare_end(sub, prefix, case, expected, ended, fmt_name):
 def check_case(sub, case):
     spec, rows, via = case["spec"], case["rows"], case["via"]
     fmt_name = spec["fmt"]["kind"]
-    tmpdir = tempfile.mkdtemp(prefix="c04-")
+    tmpdir = reused_dir("c04")
     try:
         try:
             cid = load(spec)
